@@ -81,7 +81,7 @@ def exec (s : St) (op : String) (a : List Nat) (obs : Option (List Nat)) : R (St
     let x ← LabeledData.createFromRange ((List.range n).map (· + base)) labels m s.ishape []
     pure (setD s a x, "")
   | "repart", a :: sizes => do
-    let x ← (← D a).repartition sizes
+    let x ← (← D a).repartitionByLoop sizes   -- the copy loop of the C++ (= repartition, C03.repartition_loop_eq)
     pure (setD s a x, "")
   | "splitb", [a, b, k] => do
     let x ← (← D a).splitBatch b k
